@@ -217,8 +217,7 @@ Print Assumptions C04_xml_feed_loop_done_means_all_input_consumed.
 (* ONE EOF, delivered LAST (half of the fourth clause): whenever Tokenizer::end answers normally, the newest token
    delivered is the EOF token - any machine, any fuel, any sink, both tokenizers.  An EOF arm never reads
    ([eof_ok], decided on the regenerated tables), so it can answer "done" only through its Eof terminator, which has
-   just emitted the token.  (That no EOF token is delivered BEFORE end() stays with the single-EOF oracle of the
-   harness; step arms have no Eof terminator: C04_html/xml_step_arms_never_answer_eof.) *)
+   just emitted the token.  (That no EOF token is delivered BEFORE end(), and exactly one in all: C04_*_exactly_one_eof below.) *)
 Theorem C04_html_end_delivers_eof_last :
   forall simd ent c1 sk fuel m,
   let r := tok_end [] fq_next fq_peek (@app N) (fun q => q) fq_run1 html_flavour true html_table simd ent c1 sk fuel m in
@@ -237,6 +236,53 @@ Theorem C04_newest_is_eof_means : forall (m : mach hstate (list N)),
   newest_is_eof m <-> exists l k o, mout m = (TEof, l, k) :: o.
 Proof. exact newest_is_eof_means. Qed.
 Print Assumptions C04_newest_is_eof_means.
+
+(* EXACTLY ONE EOF (the fourth clause, TokIR/SingleEof.v): [eofs m] counts the EOF tokens delivered so far.  feed() never
+   delivers one (a frame lemma for every primitive of the interpreter; step arms have no Eof terminator), an end() that
+   returns normally delivers exactly one, and the whole driver from a fresh tokenizer - any chunking, script pauses with
+   injected text, any sink, any fuel, any start state - ends with exactly one EOF token, which by the theorems above is
+   the last token.  Both tokenizers, no invariant or fuel hypotheses. *)
+From HV Require Import TokIR.SingleEof.
+
+Theorem C04_html_feed_delivers_no_eof :
+  forall simd ent c1 sk fuel m,
+  eofs (fst (feed [] fq_next fq_peek (@app N) (fun q => q) fq_run1 html_flavour true html_table simd ent c1 sk fuel m)) = eofs m.
+Proof. exact html_feed_delivers_no_eof. Qed.
+Print Assumptions C04_html_feed_delivers_no_eof.
+
+Theorem C04_xml_feed_delivers_no_eof :
+  forall simd ent c1 sk fuel m,
+  eofs (fst (feed [] fq_next fq_peek (@app N) (fun q => q) fq_run1 xml_flavour true xml_table simd ent c1 sk fuel m)) = eofs m.
+Proof. exact xml_feed_delivers_no_eof. Qed.
+Print Assumptions C04_xml_feed_delivers_no_eof.
+
+Theorem C04_html_end_delivers_exactly_one_eof :
+  forall simd ent c1 sk fuel m,
+  let r := tok_end [] fq_next fq_peek (@app N) (fun q => q) fq_run1 html_flavour true html_table simd ent c1 sk fuel m in
+  snd r = SSuspend -> eofs (fst r) = Datatypes.S (eofs m).
+Proof. exact html_end_delivers_one_eof. Qed.
+Print Assumptions C04_html_end_delivers_exactly_one_eof.
+
+Theorem C04_xml_end_delivers_exactly_one_eof :
+  forall simd ent c1 sk fuel m,
+  let r := tok_end [] fq_next fq_peek (@app N) (fun q => q) fq_run1 xml_flavour true xml_table simd ent c1 sk fuel m in
+  snd r = SSuspend -> eofs (fst r) = Datatypes.S (eofs m).
+Proof. exact xml_end_delivers_one_eof. Qed.
+Print Assumptions C04_xml_end_delivers_exactly_one_eof.
+
+Theorem C04_html_driver_exactly_one_eof :
+  forall simd ent c1 sk fuel inj chunks s0 last,
+  let r := drive_flat html_flavour true html_table simd ent c1 sk fuel inj chunks (mkmach (init_cfg s0 last false) [] [] 0%N) [] in
+  hd (SPanic 0) (snd r) = SSuspend -> eofs (fst r) = 1%nat.
+Proof. exact html_driver_exactly_one_eof. Qed.
+Print Assumptions C04_html_driver_exactly_one_eof.
+
+Theorem C04_xml_driver_exactly_one_eof :
+  forall simd ent c1 sk fuel inj chunks s0 last,
+  let r := drive_flat xml_flavour true xml_table simd ent c1 sk fuel inj chunks (mkmach (init_cfg s0 last false) [] [] 0%N) [] in
+  hd (SPanic 0) (snd r) = SSuspend -> eofs (fst r) = 1%nat.
+Proof. exact xml_driver_exactly_one_eof. Qed.
+Print Assumptions C04_xml_driver_exactly_one_eof.
 
 Example C04_consumed_example :
   let r := feed [] fq_next fq_peek (@app N) (fun q => q) fq_run1 html_flavour true html_table
